@@ -897,12 +897,15 @@ Qed.
 
 (* the code as it is: the flags read from the source say "one cache per app" and "failed writes mark" *)
 Lemma flag_one_per_app : cache_provider_one_per_app = true. Proof. reflexivity. Qed.
+Lemma flag_lock_across : cache_provider_lock_across_create = true. Proof. reflexivity. Qed.
+Lemma provider_memo_true conc : provider_memo conc = true.
+Proof. unfold provider_memo. rewrite flag_one_per_app, flag_lock_across. reflexivity. Qed.
 Lemma flag_write_error_marks : cache_write_error_marks = true. Proof. reflexivity. Qed.
 
-Theorem cache_transparent_x_src_proved xs : forall s, CI (one_cache s) ->
+Theorem cache_transparent_x_src_proved conc xs : forall s, CI (one_cache s) ->
   Forall (fun x => op_domain (snd x) /\ snd (fst x) <> FRaw) xs ->
-  transparent_xrun cache_provider_one_per_app cache_big_values_marked cache_key_guard cache_expired_leaves_marker
+  transparent_xrun (provider_memo conc) cache_big_values_marked cache_key_guard cache_expired_leaves_marker
                    cache_write_error_marks s xs.
-Proof. rewrite flag_one_per_app, flag_big_marked, flag_key_guard, flag_write_error_marks. exact (cache_transparent_x_proved _ xs). Qed.
+Proof. rewrite provider_memo_true, flag_big_marked, flag_key_guard, flag_write_error_marks. exact (cache_transparent_x_proved _ xs). Qed.
 
 End SeqProof.
